@@ -7,7 +7,6 @@ CONSTANTS
   ModelData = FALSE
   AllocFailPoisons <- OnlyTrue
   TopFits <- OnlyTrue
-  InvalidWeight = 1
   Depth = 60
 INVARIANT Dump
 CHECK_DEADLOCK FALSE
